@@ -287,24 +287,12 @@ Lemma not_prefix_snoc (k : key) x : ~ (k ++ [x]) `prefix_of` k.
 Proof. intros Hp%prefix_length. rewrite app_length in Hp. cbn in Hp. lia. Qed.
 
 Lemma stat_file p t b : stat p t = Some (File b) <-> t !! pk p = Some (File b) /\ ptr p = false.
-Proof.
-  unfold stat. destruct (t !! pk p) as [[c|]|]; [destruct (ptr p)|..]; split; try done.
-  - by intros [= ->].
-  - by intros [[= ->] _].
-  - by intros [? _].
-  - by intros [? _].
-Qed.
+Proof. unfold stat. destruct (t !! pk p) as [[c|]|], (ptr p); naive_solver. Qed.
 Lemma stat_dir p t : stat p t = Some Dir <-> t !! pk p = Some Dir.
-Proof. unfold stat. destruct (t !! pk p) as [[c|]|]; [destruct (ptr p)|..]; split; done. Qed.
+Proof. unfold stat. destruct (t !! pk p) as [[c|]|], (ptr p); naive_solver. Qed.
 Lemma stat_none p t :
   stat p t = None <-> t !! pk p = None \/ (exists b, t !! pk p = Some (File b) /\ ptr p = true).
-Proof.
-  unfold stat. destruct (t !! pk p) as [[c|]|]; [destruct (ptr p)|..]; split; try done.
-  - intros _. right. by exists c.
-  - intros [|(b & _ & ?)]; done.
-  - intros [|(b & ? & ?)]; done.
-  - by left.
-Qed.
+Proof. unfold stat. destruct (t !! pk p) as [[c|]|], (ptr p); naive_solver. Qed.
 
 (* ---- the primitives under the conditions the commands establish ------------------------------- *)
 Lemma dir_create_spec t k :
@@ -419,3 +407,410 @@ Proof.
   - rewrite (proj2 (stat_file a _ c)); [done|]. split; [|done].
     rewrite lookup_insert_ne by done. by eapply mkdirs_keeps.
 Qed.
+
+(* ---- per-command commuting lemmas: M_x = S_x --------------------------------------------------- *)
+Lemma trailing_partial_false p t t1 :
+  wf t -> trailing_partial p t = false -> ptr p = true -> mkdirs (parent (pk p)) t = Some t1 -> t1 = t.
+Proof.
+  intros Hwf Hk Hp Em. unfold trailing_partial in Hk. rewrite Hp, Em in Hk. cbn in Hk.
+  rewrite andb_true_r in Hk. apply negb_false_iff in Hk. rewrite mkdirs_id in Em by done. congruence.
+Qed.
+
+Lemma mkdirs_parent_of_dir t t1 (k : key) :
+  wf t -> k <> [] -> mkdirs (parent k) t = Some t1 -> is_dir_at t1 k = true -> t1 = t.
+Proof.
+  intros Hwf Hk Em Ed. apply is_dir_at_lookup in Ed; [|done].
+  rewrite (mkdirs_other _ _ _ _ Em) in Ed by (by apply not_prefix_parent).
+  rewrite mkdirs_id in Em by eauto using wf_parent_dir. congruence.
+Qed.
+
+Lemma write_refines p b t :
+  wf t -> path_ok p = true -> trailing_partial p t = false -> M_write p b t = S_write p b t.
+Proof.
+  intros Hwf Hok Hk. pose proof (path_ok_nonempty _ Hok) as Hne.
+  unfold M_write, f_modify_file, S_write. rewrite create_parent_spec, put_file_unfold by done. cbn [andb].
+  destruct (mkdirs (parent (pk p)) t) as [t1|] eqn:Em; [|by destruct (ptr p)].
+  destruct (ptr p) eqn:Ep.
+  - rewrite open_trunc_ptr by done. by rewrite (trailing_partial_false p t t1).
+  - destruct (is_dir_at t1 (pk p)) eqn:Ed.
+    + rewrite open_trunc_dir by done. by rewrite (mkdirs_parent_of_dir t t1 (pk p)).
+    + rewrite open_trunc_ok; [done|done|done|by eapply mkdirs_is_dir|done].
+Qed.
+
+Lemma modify_file_missing p b t :
+  wf t -> pk p <> [] -> stat p t = None -> f_modify_file p b true t = f_modify_file p b false t.
+Proof.
+  intros Hwf Hne Hs. unfold f_modify_file. rewrite create_parent_spec by done.
+  destruct (mkdirs (parent (pk p)) t) as [t1|] eqn:Em; [|done]. cbn [andb].
+  assert (p_exists p t1 = false) as ->; [|done]. unfold p_exists.
+  rewrite (proj2 (stat_none p t1)); [done|]. apply stat_none in Hs as [Hn|(c & Hc & Hp)].
+  - left. rewrite (mkdirs_other _ _ _ _ Em); [done|by apply not_prefix_parent].
+  - right. exists c. split; [by eapply mkdirs_keeps|done].
+Qed.
+
+Lemma append_refines p b t :
+  wf t -> path_ok p = true -> trailing_partial p t = false -> M_append p b t = S_append p b t.
+Proof.
+  intros Hwf Hok Hk. pose proof (path_ok_nonempty _ Hok) as Hne. unfold M_append, S_append.
+  destruct (stat p t) as [[c|]|] eqn:Es.
+  - unfold f_modify_file. rewrite create_parent_spec by done. pose proof Es as [Hl Hp]%stat_file.
+    rewrite mkdirs_id by eauto using wf_parent_dir. unfold p_exists, p_open_append. rewrite Es. done.
+  - unfold f_modify_file. rewrite create_parent_spec by done. pose proof Es as Hl%stat_dir.
+    rewrite mkdirs_id by eauto using wf_parent_dir. unfold p_exists, p_open_append. rewrite Es. done.
+  - rewrite modify_file_missing by done. by apply write_refines.
+Qed.
+
+Lemma touch_refines p t :
+  wf t -> path_ok p = true -> negb (p_exists p t) && trailing_partial p t = false ->
+  M_touch p t = S_touch p t.
+Proof.
+  intros Hwf Hok Hk. unfold M_touch, f_ensure_exists, S_touch, p_is_file. unfold p_exists in *.
+  destruct (stat p t) as [[c|]|] eqn:Es; [done|done|]. cbn [negb andb] in Hk.
+  transitivity (M_write p [] t); [|by apply write_refines].
+  unfold M_write, f_modify_file. cbn [andb]. done.
+Qed.
+
+Lemma mkdir_refines p t : wf t -> M_mkdir p t = S_mkdir p t.
+Proof.
+  intros Hwf. unfold M_mkdir, S_mkdir. rewrite dir_create_spec by done. by destruct (mkdirs _ _).
+Qed.
+
+Lemma cp_refines xdc a b t :
+  wf t -> path_ok a = true -> path_ok b = true -> p_is_dir a t = false ->
+  known_step (Cp a b) t = 0%N -> M_cp xdc a b t = S_cp a b t.
+Proof.
+  intros Hwf Ha Hb Hnd. pose proof (path_ok_nonempty _ Hb) as Hnb.
+  unfold M_cp, S_cp, p_exists, p_is_file. unfold p_is_dir in Hnd. cbn [known_step].
+  destruct (stat a t) as [[c|]|] eqn:Es; [|done|done]. intros Hk. cbn [negb].
+  apply stat_file in Es as [Hl Hp].
+  rewrite create_parent_spec, put_file_unfold by done.
+  destruct (mkdirs (parent (pk b)) t) as [t1|] eqn:Em; [|by destruct (ptr b)].
+  assert (t1 !! pk a = Some (File c)) as Hl1 by (by eapply mkdirs_keeps).
+  destruct (ptr b) eqn:Epb.
+  - cbn [negb andb] in Hk. destruct (trailing_partial b t) eqn:Etp; [done|].
+    rewrite (p_copy_fail a b c) by auto. by rewrite (trailing_partial_false b t t1).
+  - destruct (is_dir_at t1 (pk b)) eqn:Ed.
+    + rewrite (p_copy_fail a b c) by auto. cbn [oerr].
+      by rewrite (mkdirs_parent_of_dir t t1 (pk b)).
+    + rewrite (p_copy_ok a b c); [|done|done|done|done|by eapply mkdirs_is_dir|done]. cbn [oerr].
+      destruct (decide (pk a = pk b)) as [E|Hne]; [|done].
+      cbn [negb andb] in Hk. rewrite bool_decide_eq_true_2 in Hk by done. cbn [andb] in Hk.
+      destruct c; [done|done].
+Qed.
+
+Lemma rm_one_refines r p t : M_rm_one r p t = S_rm_one r p t.
+Proof.
+  unfold M_rm_one, S_rm_one, p_exists, p_is_file, p_remove_file, p_remove_dir_all, p_remove_dir.
+  destruct (stat p t) as [[c|]|]; cbn; try done; by destruct r.
+Qed.
+Lemma rm_loop_refines r ps t : M_rm_loop r ps t = S_rm_list r ps t.
+Proof.
+  revert t; induction ps as [|p ps IH]; intros t; [done|]. cbn [M_rm_loop S_rm_list].
+  rewrite rm_one_refines. destruct (S_rm_one r p t) as [[] t1]; [apply IH|done].
+Qed.
+Lemma rm_refines f ps t :
+  match f with Some fl => is_unix_flags fl | None => true end = true -> M_rm f ps t = S_rm f ps t.
+Proof.
+  intros Hf. unfold M_rm, S_rm. destruct ps as [|p ps].
+  - destruct f; [rewrite Hf|]; done.
+  - rewrite <- rm_loop_refines. destruct f as [fl|].
+    + rewrite Hf. cbn [length].
+      replace (S (length ps) + 1 =? 0)%nat with false by (symmetry; apply Nat.eqb_neq; lia).
+      replace (S (length ps) + 1 =? 1)%nat with false by (symmetry; apply Nat.eqb_neq; lia). done.
+    + cbn [length]. rewrite andb_false_r, Nat.add_0_r. cbn [Nat.eqb orb].
+      by destruct (length ps =? 0)%nat.
+Qed.
+Lemma rmdir_refines p t : M_rmdir p t = S_rmdir p t.
+Proof.
+  unfold M_rmdir, S_rmdir, p_exists, p_remove_dir. destruct (stat p t) as [[c|]|]; cbn; try done.
+  by destruct (dir_empty t (pk p)).
+Qed.
+Lemma ls_refines p t : M_ls p t = S_ls p t.
+Proof.
+  unfold M_ls, S_ls, p_glob_children, stat. by destruct (t !! pk p) as [[c|]|], (ptr p).
+Qed.
+
+Lemma mv_refines prn xmd a b t :
+  wf t -> path_ok a = true -> path_ok b = true -> p_is_dir a t = false ->
+  known_step (Mv a b) t = 0%N -> M_mv prn xmd a b t = S_mv a b t.
+Proof.
+  intros Hwf Ha Hb Hnd Hk.
+  pose proof (path_ok_nonempty _ Ha) as Hna. pose proof (path_ok_nonempty _ Hb) as Hnb.
+  unfold M_mv. rewrite !(path_ok_ends_sep b), !(path_ok_ends_sep a) by done.
+  cbn [known_step] in Hk. rewrite (path_ok_ends_sep b) in Hk by done.
+  destruct (stat a t) as [[c|]|] eqn:Es.
+  2: { unfold p_is_dir in Hnd. by rewrite Es in Hnd. }
+  2: { unfold p_exists, S_mv. by rewrite Es. }
+  rewrite (S_mv_unfold _ _ _ _ Es). pose proof Es as [Hla Hpa]%stat_file.
+  assert (p_exists a t = true) as Hea by (unfold p_exists; by rewrite Es).
+  assert (p_is_file a t = true) as Hfa by (unfold p_is_file; by rewrite Es).
+  rewrite Hea, Hfa in *. cbn [negb andb].
+  destruct (key_snoc (pk a) Hna) as (name & Hlast & Hka).
+  unfold mv_target in *. rewrite (path_ok_ends_sep b) in * by done. rewrite Hlast in *.
+  destruct (stat b t) as [[c2|]|] eqn:Eb.
+  - (* the target is an existing file: overwrite *)
+    pose proof Eb as [Hlb Hpb]%stat_file.
+    assert (p_exists b t = true) as -> by (unfold p_exists; by rewrite Eb).
+    assert (p_is_file b t = true) as -> by (unfold p_is_file; by rewrite Eb).
+    assert (p_is_dir b t = false) as -> by (unfold p_is_dir; by rewrite Eb).
+    rewrite Hpb. cbn [orb].
+    assert (is_dir_at t (pk b) = false) as Hdb by (apply lookup_not_dir; [done|congruence]).
+    rewrite create_parent_spec, put_file_unfold by done. rewrite Hpb.
+    rewrite mkdirs_id by eauto using wf_parent_dir. rewrite Hdb.
+    rewrite (move_file_ok a b c); eauto using wf_parent_dir.
+  - (* the target is an existing directory: into it *)
+    pose proof Eb as Hlb%stat_dir.
+    assert (p_exists b t = true) as Heb by (unfold p_exists; by rewrite Eb).
+    assert (p_is_file b t = false) as Hfb by (unfold p_is_file; by rewrite Eb).
+    assert (p_is_dir b t = true) as Hdb by (unfold p_is_dir; by rewrite Eb).
+    rewrite Heb, Hfb, Hdb in *. cbn [orb andb negb] in *.
+    assert (is_dir_at t (pk b) = true) as Hd by (by apply is_dir_at_lookup).
+    rewrite dir_create_spec by done. rewrite mkdirs_id by done.
+    unfold x_move_items. rewrite Hea. unfold p_is_dir at 1. rewrite Es, Hlast. cbn [negb].
+    rewrite put_file_unfold by (cbn; by destruct (pk b)). cbn [pjoin pk ptr] in *. rewrite parent_snoc.
+    rewrite mkdirs_id by done.
+    destruct (t !! (pk b ++ [name])) as [[c3|]|] eqn:Et.
+    + unfold is_file_at in Hk. by rewrite Et in Hk.
+    + assert (is_dir_at t (pk b ++ [name]) = true) as -> by (apply is_dir_at_lookup; [by destruct (pk b)|done]).
+      unfold x_move_file, x_file_copy. rewrite Hea, Hfa. cbn [negb andb].
+      assert (p_exists (pjoin b name) t = true) as ->; [|done].
+      unfold p_exists. rewrite (proj2 (stat_dir _ t)); done.
+    + assert (is_dir_at t (pk b ++ [name]) = false) as Hn.
+      { apply lookup_not_dir; [by destruct (pk b)|congruence]. }
+      rewrite Hn. rewrite (move_file_ok a (pjoin b name) c); cbn [pjoin pk ptr]; rewrite ?parent_snoc; auto.
+      by destruct (pk b).
+  - (* the target is missing *)
+    assert (p_exists b t = false) as Heb by (unfold p_exists; by rewrite Eb).
+    assert (p_is_dir b t = false) as Hdb by (unfold p_is_dir; by rewrite Eb).
+    rewrite Heb, Hdb in *. cbn [orb andb negb] in *.
+    destruct (ptr b) eqn:Epb.
+    + (* written as a directory: create it, move inside *)
+      cbn [orb andb negb]. rewrite dir_create_spec by done.
+      rewrite put_file_unfold by (cbn; by destruct (pk b)). cbn [pjoin pk ptr]. rewrite parent_snoc.
+      destruct (mkdirs (pk b) t) as [t1|] eqn:Em; [|done].
+      assert (t !! pk b = None) as Hbn.
+      { apply stat_none in Eb as [|(c' & Hc & _)]; [done|]. exfalso.
+        apply mkdirs_Some in Em as [Hf _]. specialize (Hf (pk b) (self_in_prefixes _ Hnb)).
+        unfold is_file_at in Hf. by rewrite Hc in Hf. }
+      assert (t1 !! (pk b ++ [name]) = None) as Ht1.
+      { rewrite (mkdirs_other _ _ _ _ Em) by apply not_prefix_snoc.
+        eapply wf_below_none; [done|done|done|]. by apply prefix_app_r. }
+      assert (is_dir_at t1 (pk b ++ [name]) = false) as Hn.
+      { apply lookup_not_dir; [by destruct (pk b)|congruence]. }
+      rewrite Hn. unfold x_move_items.
+      assert (t1 !! pk a = Some (File c)) as Hla1 by (by eapply mkdirs_keeps).
+      assert (stat a t1 = Some (File c)) as Es1 by (by apply stat_file).
+      unfold p_exists, p_is_dir. rewrite Es1, Hlast. cbn [negb].
+      rewrite (move_file_ok a (pjoin b name) c); cbn [pjoin pk ptr]; rewrite ?parent_snoc; auto.
+      * by destruct (pk b).
+      * by eapply mkdirs_is_dir.
+    + assert (t !! pk b = None) as Hbn.
+      { apply stat_none in Eb as [|(c' & _ & ?)]; [done|congruence]. }
+      cbn [orb andb negb] in *. destruct (has_ext b) eqn:Ex; cbn [orb andb negb] in *.
+      * (* looks like a file name: rename *)
+        rewrite create_parent_spec, put_file_unfold by done. rewrite Epb.
+        destruct (mkdirs (parent (pk b)) t) as [t1|] eqn:Em; [|done].
+        assert (t1 !! pk b = None) as Ht1.
+        { rewrite (mkdirs_other _ _ _ _ Em); [done|by apply not_prefix_parent]. }
+        assert (is_dir_at t1 (pk b) = false) as Hn by (apply lookup_not_dir; [done|congruence]).
+        rewrite Hn. assert (t1 !! pk a = Some (File c)) as Hla1 by (by eapply mkdirs_keeps).
+        rewrite (move_file_ok a b c); auto. by eapply mkdirs_is_dir.
+      * (* no extension: taken for a directory — the known class unless a file is in the way *)
+        rewrite dir_create_spec by done.
+        destruct (mkdirs (pk b) t) as [t1|] eqn:Em; [done|].
+        rewrite put_file_unfold by done. rewrite Epb.
+        rewrite mkdirs_None_parent; [done|done|]. unfold is_file_at. by rewrite Hbn.
+Qed.
+
+(* ---- join_path: the script's loops compute "join, then collapse separator runs" ----------------- *)
+Lemma list_ind2 {A} (P : list A -> Prop) :
+  P [] -> (forall c, P [c]) -> (forall c d r, P r -> P (d :: r) -> P (c :: d :: r)) -> forall s, P s.
+Proof.
+  intros H0 H1 H2 s. assert (P s /\ forall c, P (c :: s)) as [? _]; [|done].
+  induction s as [|a s [IH1 IH2]]; [done|]. split; [apply IH2|]. intros c. by apply H2.
+Qed.
+Definition head_slash (s : str) : bool := match s with d :: _ => is_slash d | [] => false end.
+Lemma squeeze_cons c x :
+  squeeze (c :: x) = if is_slash c && head_slash x then squeeze x else c :: squeeze x.
+Proof. destruct x as [|d r]; [by rewrite andb_false_r|done]. Qed.
+Lemma has_dslash_cons c x : has_dslash (c :: x) = (is_slash c && head_slash x) || has_dslash x.
+Proof. destruct x as [|d r]; [by rewrite andb_false_r|done]. Qed.
+Lemma replace_cons2 c d r :
+  replace_dslash (c :: d :: r) =
+    if is_slash c && is_slash d then c_slash :: replace_dslash r else c :: replace_dslash (d :: r).
+Proof. done. Qed.
+Lemma head_slash_replace s : head_slash (replace_dslash s) = head_slash s.
+Proof.
+  destruct s as [|c [|d r]]; [done|done|]. cbn [replace_dslash].
+  destruct (is_slash c && is_slash d) eqn:E; [|done]. cbn. by apply andb_true_iff in E as [-> _].
+Qed.
+Lemma squeeze_replace s : squeeze (replace_dslash s) = squeeze s.
+Proof.
+  induction s as [|c|c d r IH1 IH2] using list_ind2; [done|done|].
+  rewrite replace_cons2. destruct (is_slash c && is_slash d) eqn:E.
+  - apply andb_true_iff in E as [Ec Ed]. rewrite (squeeze_cons c (d :: r)). cbn [head_slash].
+    rewrite Ec, Ed. cbn [andb]. assert (d = c_slash) as -> by (by apply N.eqb_eq in Ed).
+    rewrite (squeeze_cons c_slash r), (squeeze_cons c_slash (replace_dslash r)).
+    by rewrite head_slash_replace, IH1.
+  - rewrite squeeze_cons, head_slash_replace, IH2. by rewrite (squeeze_cons c (d :: r)).
+Qed.
+Lemma squeeze_id s : has_dslash s = false -> squeeze s = s.
+Proof.
+  induction s as [|c x IH]; [done|]. rewrite has_dslash_cons, squeeze_cons.
+  intros [-> H]%orb_false_iff. by rewrite IH.
+Qed.
+Lemma replace_length s : length (replace_dslash s) <= length s.
+Proof.
+  induction s as [|c|c d r IH1 IH2] using list_ind2; [done|done|].
+  rewrite replace_cons2. destruct (is_slash c && is_slash d); cbn [length] in *; lia.
+Qed.
+Lemma replace_shorter s : has_dslash s = true -> length (replace_dslash s) < length s.
+Proof.
+  induction s as [|c|c d r IH1 IH2] using list_ind2; [done|done|].
+  rewrite has_dslash_cons, replace_cons2. cbn [head_slash].
+  destruct (is_slash c && is_slash d); cbn [orb length].
+  - intros _. pose proof (replace_length r). lia.
+  - intros H. specialize (IH2 H). cbn [length] in IH2. lia.
+Qed.
+Lemma jp_loop_squeeze fuel s : length s < fuel -> jp_loop fuel s = Some (squeeze s).
+Proof.
+  revert s; induction fuel as [|f IH]; intros s Hl; [lia|]. cbn [jp_loop].
+  destruct (has_dslash s) eqn:E.
+  - rewrite IH, squeeze_replace; [done|]. pose proof (replace_shorter s E). lia.
+  - by rewrite squeeze_id.
+Qed.
+Lemma jp_concat_true acc args : jp_concat true acc args = acc ++ flat_map (fun a => c_slash :: a) args.
+Proof.
+  revert acc; induction args as [|a r IH]; intros acc; cbn [jp_concat flat_map]; [by rewrite app_nil_r|].
+  rewrite IH. by rewrite <- app_assoc.
+Qed.
+Lemma join_with_slash_cons a r : join_with_slash (a :: r) = a ++ flat_map (fun a => c_slash :: a) r.
+Proof.
+  revert a; induction r as [|b r IH]; intros a; [by rewrite app_nil_r|].
+  change (join_with_slash (a :: b :: r)) with (a ++ c_slash :: join_with_slash (b :: r)). by rewrite IH.
+Qed.
+Lemma M_join_S_join args : M_join args = Some (S_join args).
+Proof.
+  unfold M_join, S_join. rewrite jp_loop_squeeze by lia. f_equal. f_equal.
+  destruct args as [|a r]; [done|]. cbn [jp_concat]. by rewrite jp_concat_true, join_with_slash_cons.
+Qed.
+
+(* ---- one step ------------------------------------------------------------------------------------ *)
+Lemma if_eq_0 (b : bool) (n : N) : (if b then n else 0%N) = 0%N -> n <> 0%N -> b = false.
+Proof. destruct b; [congruence|done]. Qed.
+
+Lemma step_refines prn xdc xmd o t :
+  wf t -> dom_step o t = true -> known_step o t = 0%N -> M_step prn xdc xmd o t = S_step o t.
+Proof.
+  intros Hwf Hd Hk. destruct o; cbn [M_step S_step dom_step known_step] in *.
+  - apply andb_true_iff in Hd as [Hp _]. apply write_refines; [done|done|]. by apply (if_eq_0 _ 3%N).
+  - apply andb_true_iff in Hd as [Hp _]. apply append_refines; [done|done|]. by apply (if_eq_0 _ 3%N).
+  - unfold M_read, S_read, p_read. by destruct (stat p t) as [[c|]|].
+  - apply andb_true_iff in Hd as [Hp _]. apply write_refines; [done|done|]. by apply (if_eq_0 _ 3%N).
+  - unfold M_readb, S_readb, p_read. by destruct (stat p t) as [[c|]|].
+  - apply touch_refines; [done|done|]. by apply (if_eq_0 _ 3%N).
+  - by apply mkdir_refines.
+  - apply andb_true_iff in Hd as [[Ha Hb]%andb_true_iff Hn%negb_true_iff]. by apply cp_refines.
+  - apply andb_true_iff in Hd as [[Ha Hb]%andb_true_iff Hn%negb_true_iff]. by apply mv_refines.
+  - apply andb_true_iff in Hd as [_ Hf]. by apply rm_refines.
+  - apply rmdir_refines.
+  - done.
+  - done.
+  - done.
+  - done.
+  - apply ls_refines.
+  - done.
+  - done.
+  - by rewrite M_join_S_join.
+Qed.
+
+(* ---- S keeps the tree well formed ---------------------------------------------------------------- *)
+Lemma put_file_wf p b t t' : wf t -> put_file p b t = Some t' -> wf t'.
+Proof.
+  intros Hwf (t1 & Hm & Hp & Hk & Hd & ->)%put_file_Some.
+  apply wf_insert_file; [by eapply mkdirs_wf|done|by eapply mkdirs_is_dir|done].
+Qed.
+Lemma S_write_wf p b t : wf t -> wf (S_write p b t).2.
+Proof.
+  intros Hwf. unfold S_write. destruct (put_file p b t) eqn:E; [|done]. by eapply put_file_wf.
+Qed.
+Lemma S_rm_one_wf r p t : wf t -> pk p <> [] -> wf (S_rm_one r p t).2.
+Proof.
+  intros Hwf Hk. unfold S_rm_one. destruct (stat p t) as [[c|]|] eqn:Es; [| |done].
+  - apply stat_file in Es as [Hl _]. apply wf_delete_leaf; [done|]. intros q n Hq Hp.
+    destruct (decide (q = pk p)); [done|]. rewrite (wf_below_file t (pk p) c q) in Hq; done.
+  - destruct r; [by apply wf_remove_subtree|]. destruct (dir_empty t (pk p)) eqn:E; [|done].
+    apply wf_delete_leaf; [done|]. by apply dir_empty_spec.
+Qed.
+Lemma S_rm_list_wf r ps t : wf t -> forallb path_ok ps = true -> wf (S_rm_list r ps t).2.
+Proof.
+  revert t; induction ps as [|p ps IH]; intros t Hwf Hok; [done|]. cbn [S_rm_list].
+  cbn [forallb] in Hok. apply andb_true_iff in Hok as [Hp Hps].
+  pose proof (S_rm_one_wf r p t Hwf (path_ok_nonempty _ Hp)) as H1.
+  destruct (S_rm_one r p t) as [[] t1]; [by apply IH|done].
+Qed.
+Lemma S_cp_wf a b t : wf t -> wf (S_cp a b t).2.
+Proof.
+  intros Hwf. unfold S_cp. destruct (stat a t) as [[c|]|]; [|done|done].
+  destruct (put_file b c t) eqn:E; [|done]. by eapply put_file_wf.
+Qed.
+Lemma S_step_wf o t : wf t -> dom_step o t = true -> wf (S_step o t).2.
+Proof.
+  intros Hwf Hd. destruct o; cbn [S_step dom_step] in *; try done.
+  - by apply S_write_wf.
+  - unfold S_append. destruct (stat p t) as [[c|]|] eqn:Es; [|done|by apply S_write_wf].
+    apply stat_file in Es as [Hl _]. by eapply wf_insert_over.
+  - unfold S_read. destruct (stat p t) as [[c|]|]; [by destruct (utf8_decode c)|done|done].
+  - by apply S_write_wf.
+  - unfold S_readb. by destruct (stat p t) as [[c|]|].
+  - unfold S_touch. destruct (stat p t) as [[c|]|]; [done|done|by apply S_write_wf].
+  - unfold S_mkdir. destruct (mkdirs (pk p) t) eqn:E; [by eapply mkdirs_wf|done].
+  - by apply S_cp_wf.
+  - apply andb_true_iff in Hd as [[Ha Hb]%andb_true_iff _].
+    unfold S_mv. destruct (stat a t) as [[c|]|]; [|done|done].
+    pose proof (S_cp_wf a (mv_target a b t) t Hwf) as H1.
+    destruct (S_cp a (mv_target a b t) t) as [o1 t1]. cbn [snd] in H1.
+    pose proof (S_rm_one_wf false a t1 H1 (path_ok_nonempty _ Ha)) as H2.
+    destruct o1; try done. by destruct (S_rm_one false a t1).
+  - apply andb_true_iff in Hd as [Hps _]. unfold S_rm. destruct ps as [|p ps]; [done|].
+    by apply S_rm_list_wf.
+  - unfold S_rmdir. destruct (stat p t) as [[c|]|] eqn:Es; [done| |done].
+    destruct (dir_empty t (pk p)) eqn:E; [|done]. apply wf_delete_leaf; [done|]. by apply dir_empty_spec.
+  - unfold S_size. by destruct (stat p t) as [[c|]|].
+Qed.
+
+Lemma run_S_wf ops t : wf t -> in_domain ops t -> Forall (fun ot => wf ot.2) (run S_step ops t).
+Proof.
+  revert t; induction ops as [|o r IH]; intros t Hwf Hd; [by constructor|].
+  destruct Hd as [Hd Hr]. cbn [run]. constructor; [by apply S_step_wf|].
+  apply IH; [by apply S_step_wf|done].
+Qed.
+
+(* ---- histories ------------------------------------------------------------------------------------- *)
+Theorem refines prn xdc xmd ops t :
+  wf t -> in_domain ops t -> ~ Known ops t -> run (M_step prn xdc xmd) ops t = run S_step ops t.
+Proof.
+  revert t; induction ops as [|o r IH]; intros t Hwf Hd Hk; [done|].
+  destruct Hd as [Hd Hr]. cbn [run].
+  assert (known_step o t = 0%N) as H0.
+  { destruct (N.eq_dec (known_step o t) 0) as [|Hn]; [done|]. exfalso. apply Hk. by left. }
+  rewrite step_refines by done. f_equal.
+  apply IH; [by apply S_step_wf|done|]. intros HK. apply Hk. by right.
+Qed.
+
+Lemma known_step_range o t :
+  known_step o t = 0%N \/ known_step o t = 1%N \/ known_step o t = 2%N \/ known_step o t = 3%N
+  \/ known_step o t = 4%N.
+Proof. destruct o; cbn [known_step]; repeat case_match; auto. Qed.
+Lemma Known_classes ops t :
+  Known ops t <-> KnownF15 ops t \/ KnownCpSelf ops t \/ KnownPartialParents ops t \/ KnownMvNoClobber ops t.
+Proof.
+  unfold Known, KnownF15, KnownCpSelf, KnownPartialParents, KnownMvNoClobber.
+  revert t; induction ops as [|o r IH]; intros t; cbn [known_at]; [tauto|].
+  rewrite IH. destruct (known_step_range o t) as [E|[E|[E|[E|E]]]]; rewrite E; intuition congruence.
+Qed.
+Theorem refines_classes prn xdc xmd ops t :
+  wf t -> in_domain ops t ->
+  ~ KnownF15 ops t -> ~ KnownCpSelf ops t -> ~ KnownPartialParents ops t -> ~ KnownMvNoClobber ops t ->
+  run (M_step prn xdc xmd) ops t = run S_step ops t.
+Proof. intros Hwf Hd H1 H2 H3 H4. apply refines; [done|done|]. rewrite Known_classes. tauto. Qed.
